@@ -302,10 +302,12 @@ struct Gen {
     }
     S key(unsigned pool) {
         static const char *p0[] = {"a", "b", "c", "k", "ab", "abc", "", "x1"};
-        static const char *p1[] = {"ax", "bx", "cx", "dx", "ex", "a", "x"};
+        // p1: keys with equal hashes (the hash ignores the first unit of two); "s"/"sh", "t"/"ti", "l"/"la": equal hash AND
+        // one key a proper prefix of the other, so only the length tells them apart
+        static const char *p1[] = {"ax", "bx", "cx", "dx", "ex", "a", "x", "s", "sh", "t", "ti", "l", "la"};
         switch (pool % 3) {
             case 0: return widen<C>(p0[r.below(8)]);
-            case 1: return widen<C>(p1[r.below(7)]);
+            case 1: return widen<C>(p1[r.below(13)]);
             default: {
                 S        s;
                 unsigned n = r.below(5);
